@@ -17,7 +17,7 @@ EQPT = lambda a, ia, b, ib: ('len(%s[%s]) == len(%s[%s]) and forall(d, 0, len(%s
 
 CONTRACTS = {
     'helpers.knot_insertion_alpha': dict(
-        props=['C04'],
+        props=['C04', 'C06', 'C07'],
         args=OD([('u', 'real'), ('knotvector', V), ('span', 'int'), ('idx', 'int'), ('leg', 'int')]),
         returns='real',
         requires=['0 <= leg + idx', 'idx + span + 1 < len(knotvector)', 'leg + idx < len(knotvector)', '0 <= idx + span + 1',
@@ -25,7 +25,7 @@ CONTRACTS = {
         ensures=['result * (knotvector[idx + span + 1] - knotvector[leg + idx]) == u - knotvector[leg + idx]'],
     ),
     'helpers.knot_insertion': dict(
-        props=['C04'],
+        props=['C04', 'C06', 'C07'],
         args=OD([('degree', 'int'), ('knotvector', V), ('ctrlpts', M), ('u', 'real'), ('kwargs', 'kwargs')]),
         ghost_args=OD([('g_num', 'int'), ('g_s', 'int'), ('g_span', 'int'), ('dim', 'int')]),
         kwargs={'num': '$g_num', 's': '$g_s', 'span': '$g_span'},
